@@ -19,14 +19,14 @@ def fmt_op(o):
         return f"{k}(g{o['w']})"
     if k == "cv_wait":
         return f"cv_wait(cv{o['o']},m{o['v']},g{o['w']})"
-    if k in ("yield", "spin", "sleep", "park", "nop", "rand"):
+    if k in ("yield", "spin", "sleep", "park", "nop", "rand", "reset_steps"):
         return k
     return f"{k}(o{o['o']},v{o['v']},w{o['w']})"
 
 
 def fmt_prog(p):
     objs = {k: p[k] for k in ("nmutex", "atomics", "ncv", "nrw", "chans", "sems", "barriers", "nonce") if p.get(k)}
-    lines = [f"prog {p['id']} [{p['fam']}] objs={json.dumps(objs)}"]
+    lines = [f"prog {p['id']} [{p['fam']}] objs={json.dumps(objs)}" + (f" maxsteps={p['maxsteps']}" if p.get("maxsteps") else "")]
     for i, t in enumerate(p["tasks"]):
         lines.append(f"  T{i}: " + "; ".join(fmt_op(o) for o in t))
     return "\n".join(lines)
@@ -44,7 +44,7 @@ def fmt_problem(v):
     out = [f"--- {v['kind']}  sig={v['sig']}"]
     if "prog" in v:
         out.append(fmt_prog(v["prog"]))
-    if v["kind"] == "trace-rejected" and "matched" in v:
+    if v["kind"] in ("trace-rejected", "invariant-violated") and "matched" in v:
         m = v["matched"]
         evs = v["events"]
         lo = max(0, m - 14)
@@ -112,10 +112,44 @@ def family_pipeline(fam, progs, outdir, cap=20000, do_mc=True, workers=8, max_di
                 continue
             seen.add(sig)
             problems.append({"kind": "replay-mismatch", "prog": by_id[m["prog"]], "detail": mm, "sig": sig})
+    # iteration budgets (C13): number of body invocations and return value of Runner::run
+    for m in meta:
+        for b in m.get("budgets", []):
+            rets = b["returns"]
+            exp_max = b["budget"]
+            bad = None
+            if b["sched"] in ("random", "urw", "pct", "rr"):
+                if b["execs"] != exp_max:
+                    bad = f"{b['execs']} executions under an iteration budget of {exp_max}"
+            elif b["execs"] > exp_max:
+                bad = f"{b['execs']} executions under an iteration budget of {exp_max}"
+            # every successful Runner::run returns the number of executions it performed
+            for ret, n in rets:
+                if bad is None and ret is not None and ret != n:
+                    bad = f"Runner::run returned {ret} after invoking the body {n} times"
+            if bad:
+                problems.append({"kind": "budget-mismatch", "prog": by_id[m["prog"]], "detail": dict(b, what=bad),
+                                 "sig": f"{fam}/budget/{b['sched']}"})
     reached, leaves, tres = vlib.validate_trie(outdir, workers=workers)
     if not tres["ok"]:
         problems.append({"kind": "tlc-error", "where": "TraceShuttle", "errors": tres["errors"][:5],
                          "sig": f"{fam}/tlc-error/trace", "out": tres["out"]})
+    inv_nodes = {}
+    for pl in vlib.tlc_lines(tres["out"], "INV"):
+        nid, names = pl.split(", ", 1)
+        for nm in names.strip("{}").split(","):
+            inv_nodes.setdefault(nm.strip().strip('"'), []).append(int(nid))
+    if inv_nodes:
+        nodes, parent = vlib.load_trie(outdir)
+        for nm, nids in inv_nodes.items():
+            nid = min(nids)
+            path = vlib.path_to(nodes, parent, nid)
+            pid = nodes[path[0]]["ev"]["p"]
+            evs = [nodes[n]["ev"] for n in path]
+            prev = last_op_before(evs, len(evs))
+            problems.append({"kind": "invariant-violated", "invariant": nm, "prog": by_id[pid], "count": len(nids),
+                             "events": evs, "matched": len(evs), "spec_state": "(state after the last event shown)",
+                             "sig": f"{fam}/invariant/{nm}/at:{evs[-1].get('e')}" + (":" + evs[-1]["k"] if "k" in evs[-1] else "")})
     missing = sorted(leaves - reached)
     diag_done = 0
     if missing:
@@ -206,6 +240,11 @@ def S(fam, q, t):
 
 
 SHUTTLE_PROPS = {
+    "C13": {"stages": [F("bounds", 40, 400, mc=False), S("bounds", 16, 150), S("kernel", 8, 60)],
+            "kinds": {"trace-rejected", "invariant-violated", "budget-mismatch", "nondeterminism", "harness-crash", "tlc-error"},
+            "assume": ["steps = schedule entries (decisions + random draws) since the last reset_step_count",
+                       "an execution that needs exactly n steps may or may not be reported (unspecified corner)",
+                       "wall-clock limit (max_time) is not modelled: only iteration budgets"]},
     "C01": {"stages": [S("kernel_rand", 10, 100), S("mutex", 8, 100), S("condvar", 8, 100), S("mpsc", 8, 100),
                        S("rwlock", 6, 80), S("park", 8, 80), S("barrier", 6, 80), S("once", 6, 80),
                        S("sem_fair", 6, 80), S("sem_unfair", 6, 80), S("corpus_deadlock", 0, 0), S("corpus_locks", 0, 0)],
@@ -239,7 +278,7 @@ SHUTTLE_PROPS = {
 }
 
 # which problem kinds count for which property
-OWN_KINDS = {"trace-rejected", "outcome-missing-in-spec", "nondeterminism", "harness-crash", "tlc-error"}
+OWN_KINDS = {"trace-rejected", "invariant-violated", "outcome-missing-in-spec", "nondeterminism", "harness-crash", "tlc-error"}
 
 
 def stage_programs(fam, n):
